@@ -62,7 +62,8 @@ def utf16_units(s):
     return [(b[i] << 8) | b[i + 1] for i in range(0, len(b), 2)]
 
 
-def jcs(v):
+def jcs(v, sort=True):
+    """RFC 8785 text of a JSON value; sort=False keeps member insertion order (the canonicalizer's non-sorting 'serialize' form)"""
     if v is None:
         return "null"
     if v is True:
@@ -74,10 +75,10 @@ def jcs(v):
     if isinstance(v, str):
         return string(v)
     if isinstance(v, (list, tuple)):
-        return "[" + ",".join(jcs(x) for x in v) + "]"
+        return "[" + ",".join(jcs(x, sort) for x in v) + "]"
     if isinstance(v, dict):
-        items = sorted(v.items(), key=lambda kv: utf16_units(kv[0]))
-        return "{" + ",".join(string(k) + ":" + jcs(x) for k, x in items) + "}"
+        items = sorted(v.items(), key=lambda kv: utf16_units(kv[0])) if sort else list(v.items())
+        return "{" + ",".join(string(k) + ":" + jcs(x, sort) for k, x in items) + "}"
     raise TypeError("not a JSON value: %r" % (v,))
 
 
